@@ -41,25 +41,26 @@ def main():
                 k = a.count
                 s2 = a.old.join(parts[:k]) + a.new + a.old.join(parts[k:])
             open(p, "w").write(s2)
+        # an isolated copy of the machinery as well, so that checks running in
+        # /verif at the same time are not disturbed (harness/go.mod names the repo path)
+        vcopy = os.path.join(tmp, "verif")
+        subprocess.check_call(["rsync", "-a", "--exclude", ".git", "--exclude", ".build", "--exclude", "replays", "--exclude", "seeded",
+                               "--exclude", "testdata/rapid", VERIF + "/", vcopy + "/"])
         env = dict(os.environ, VERIF_REPO=dst, GOFLAGS="-mod=mod", GOPROXY="off")
         b = subprocess.run(["go", "build", "./..."], cwd=dst, env=env, stdout=subprocess.PIPE, stderr=subprocess.STDOUT, text=True)
         if b.returncode != 0:
             print("MUTANT DOES NOT COMPILE\n" + b.stdout[-2000:])
             return 3
-        cmd = [os.path.join(VERIF, "check"), a.id, "--tier", a.tier]
+        cmd = [os.path.join(vcopy, "check"), a.id, "--tier", a.tier]
         if a.only:
             cmd += ["--only", a.only]
-        r = subprocess.run(cmd, cwd=VERIF, env=env, stdout=subprocess.PIPE, stderr=subprocess.STDOUT, text=True)
+        r = subprocess.run(cmd, cwd=vcopy, env=env, stdout=subprocess.PIPE, stderr=subprocess.STDOUT, text=True)
         tail = [l for l in r.stdout.splitlines() if "[rapid] draw" not in l]
         print("\n".join(tail[-25:]))
         print("== mutant %s: check exit %d (%s)" % (a.file or a.patch, r.returncode, {0: "MISSED", 1: "KILLED", 2: "inconclusive"}.get(r.returncode, "?")))
         return 0
     finally:
         shutil.rmtree(tmp, ignore_errors=True)
-        # restore the generated files for /repo
-        subprocess.call([sys.executable, os.path.join(VERIF, "lib", "gen.py")])
-        # evidence written during a mutant run is not evidence for /repo
-        subprocess.call(["git", "-C", VERIF, "checkout", "--", "evidence"], stderr=subprocess.DEVNULL)
 
 
 if __name__ == "__main__":
